@@ -1,6 +1,12 @@
 (* Properties/C08.v — protocol handlers and payload-level decoders terminate without panic.
    Only statements, each closed by [exact] of a lemma proved in Proofs/.
-   [safe r] is [r <> Panic /\ r <> Fuel] (Base/Prelude.v). *)
+   [r <> Panic /\ r <> Fuel] is [safe r] (Base/Prelude.v).  Slices carry length AND capacity
+   ([wf]: len <= cap); none of the statements needs the bytes to be < 256.
+   State of the code: after the repairs of DESIGN section 11 #12 (NDP zero-length option),
+   #19 (NBNS loop + node-name array), #20 (mDNS SkipAnswer), #21 (SSDP CACHE-CONTROL) and of
+   the hop-by-hop length guard, the full-strength statements hold; the two classes left
+   (LLDP TLV length < 2: #7, embedded IPv4 header of an ICMPv4 error with TotalLen < IHL: #3)
+   belong to the view getters (VIEWS cluster) and are stated as refuted / classified. *)
 From PV Require Import Base.Prelude Base.Slice.
 From PV Require Import Model.NDPOptions Model.MiscHopByHop Model.HandlersLoop Model.HandlersDnsMsg.
 From PV Require Import Model.MiscDecoders Model.HandlersProc.
@@ -10,151 +16,89 @@ Open Scope N_scope.
 (* ---------------------------------------------------------------- *)
 (* NDP options: newParseOptions + every option unmarshal (layer_icmp6_options.go).
    [lbl_ok] is the third-party label validation inside DNSSearchList.unmarshal (puny):
-   universally quantified. Slices carry length and capacity. *)
-
-(* full-strength statement is false on the code as it is (DESIGN section 11 #12): *)
-Theorem C08_ndp_options_loop_refuted : forall lbl_ok t rest,
-  panics_type t = false ->
-  forall fuel, new_parse_options lbl_ok fuel (of_bytes (t :: 0 :: rest)) = Fuel.
-Proof. exact new_parse_options_loop_refuted. Qed.
-Print Assumptions C08_ndp_options_loop_refuted.
-
-Theorem C08_ndp_options_panic_refuted : forall lbl_ok t rest,
-  panics_type t = true ->
-  forall fuel, (0 < fuel)%nat -> new_parse_options lbl_ok fuel (of_bytes (t :: 0 :: rest)) = Panic.
-Proof. exact new_parse_options_panic_refuted. Qed.
-Print Assumptions C08_ndp_options_panic_refuted.
-
-(* outside the class "the option walk reaches an option with length byte 0": total,
-   fuel bound linear in the input length *)
-Theorem C08_ndp_options_partial : forall lbl_ok b, wf b ->
-  known_C08_ndp_zero b = ZNone ->
+   universally quantified. *)
+Theorem C08_ndp_options_total : forall lbl_ok b, wf b ->
   forall fuel, (len b < fuel)%nat ->
   new_parse_options lbl_ok fuel b <> Panic /\ new_parse_options lbl_ok fuel b <> Fuel.
-Proof. exact new_parse_options_partial. Qed.
-Print Assumptions C08_ndp_options_partial.
-
-(* the two keys are exact: a panic only in the panic class, non-termination only in the loop class *)
-Theorem C08_ndp_options_keys_exact : forall lbl_ok b, wf b ->
-  forall fuel, (len b < fuel)%nat ->
-  (new_parse_options lbl_ok fuel b = Panic -> known_C08_ndp_zero_panic b = true) /\
-  (new_parse_options lbl_ok fuel b = Fuel -> known_C08_ndp_zero_loop b = true).
-Proof. exact new_parse_options_panic_only_known. Qed.
-Print Assumptions C08_ndp_options_keys_exact.
+Proof. exact new_parse_options_total. Qed.
+Print Assumptions C08_ndp_options_total.
 
 (* the exported entry points ICMP6RouterAdvertisement.Options / ICMP6RouterSolicitation.Options *)
-Theorem C08_ra_options_partial : forall lbl_ok p, wf p ->
-  known_C08_ndp_zero (mkSlice (skipn 16 (arr p)) (len p - 16)) = ZNone ->
+Theorem C08_ra_options_total : forall lbl_ok p, wf p ->
   forall fuel, (len p < fuel)%nat ->
   ra_options lbl_ok fuel p <> Panic /\ ra_options lbl_ok fuel p <> Fuel.
-Proof. exact ra_options_partial. Qed.
-Print Assumptions C08_ra_options_partial.
+Proof. exact ra_options_total. Qed.
+Print Assumptions C08_ra_options_total.
 
-Theorem C08_rs_options_partial : forall lbl_ok p, wf p ->
-  known_C08_ndp_zero (mkSlice (skipn 24 (arr p)) (len p - 24)) = ZNone ->
+Theorem C08_rs_options_total : forall lbl_ok p, wf p ->
   forall fuel, (len p < fuel)%nat ->
   rs_options lbl_ok fuel p <> Panic /\ rs_options lbl_ok fuel p <> Fuel.
-Proof. exact rs_options_partial. Qed.
-Print Assumptions C08_rs_options_partial.
+Proof. exact rs_options_total. Qed.
+Print Assumptions C08_rs_options_total.
 
 Example C08_ndp_options_nonvacuous :
-  bytes_ok sample_opts /\ known_C08_ndp_zero (of_bytes sample_opts) = ZNone /\
-  new_parse_options (fun _ => true) 200 (of_bytes sample_opts) = Ok tt.
+  bytes_ok sample_opts /\ new_parse_options (fun _ => true) 200 (of_bytes sample_opts) = Ok tt.
 Proof. exact sample_opts_nonvacuous. Qed.
 Print Assumptions C08_ndp_options_nonvacuous.
 
+(* the former #12 witnesses (loop for type 31 / unknown, panic for type 1): now an error *)
+Example C08_ndp_zero_length_option_is_error :
+  new_parse_options (fun _ => true) 20 (of_bytes [31; 0; 0; 0; 0; 0; 0; 0]) = Err EOther /\
+  new_parse_options (fun _ => true) 20 (of_bytes [1; 0; 0; 0; 0; 0; 0; 0]) = Err EOther.
+Proof. exact zero_length_option_is_error. Qed.
+Print Assumptions C08_ndp_zero_length_option_is_error.
+
 (* ---------------------------------------------------------------- *)
 (* ParseHopByHopExtensions (layer_ip6.go:113) *)
-
-Theorem C08_hopbyhop_refuted :
-  exists p, wf p /\ bytes_ok (arr p) /\ forall fuel, hbh_parse fuel p = Panic.
-Proof. exact hbh_parse_refuted. Qed.
-Print Assumptions C08_hopbyhop_refuted.
-
-Theorem C08_hopbyhop_partial : forall p, wf p -> known_C08_hbh_short p = false ->
-  forall fuel, (cap p <= fuel)%nat -> hbh_parse fuel p <> Panic /\ hbh_parse fuel p <> Fuel.
-Proof. exact hbh_parse_partial. Qed.
-Print Assumptions C08_hopbyhop_partial.
-
-Theorem C08_hopbyhop_known_exact : forall p, wf p -> known_C08_hbh_short p = true ->
-  forall fuel, hbh_parse fuel p = Panic.
-Proof. exact hbh_parse_short_panics. Qed.
-Print Assumptions C08_hopbyhop_known_exact.
-
-(* after the library's own IsValid the decoder is total *)
-Theorem C08_hopbyhop_valid_total : forall p, wf p -> hbh_is_valid p = true ->
+Theorem C08_hopbyhop_total : forall p, wf p ->
   forall fuel, (len p <= fuel)%nat -> hbh_parse fuel p <> Panic /\ hbh_parse fuel p <> Fuel.
-Proof. exact hbh_parse_valid. Qed.
-Print Assumptions C08_hopbyhop_valid_total.
+Proof. exact hbh_parse_total. Qed.
+Print Assumptions C08_hopbyhop_total.
+
+Example C08_hopbyhop_short_is_error :
+  hbh_parse 10 (of_bytes [58]) = Err EParseFrame /\
+  hbh_parse 10 (of_bytes [58; 1; 1; 4; 0; 0; 0; 0]) = Err EParseFrame.
+Proof. exact hbh_short_is_error. Qed.
+Print Assumptions C08_hopbyhop_short_is_error.
 
 Example C08_hopbyhop_nonvacuous :
   let p := of_bytes [58; 0; 5; 2; 0; 0; 1; 0; 1; 2] in
-  wf p /\ hbh_is_valid p = true /\ known_C08_hbh_short p = false /\ hbh_parse 10 p = Ok tt.
+  wf p /\ hbh_is_valid p = true /\ hbh_parse 10 p = Ok tt.
 Proof. exact hbh_nonvacuous. Qed.
 Print Assumptions C08_hopbyhop_nonvacuous.
 
 (* ---------------------------------------------------------------- *)
 (* ProcessMDNS (handlers/dns_naming/mdns.go:314) over the abstract dnsmessage.Parser state
-   machine: quantified over ALL structured messages (any counts, any record stream). *)
-
-(* full statement refuted (DESIGN section 11 #20): a record the loop hands to p.SkipAnswer()
-   while the parser is in the authority/additional section is never consumed *)
-Theorem C08_mdns_outside_answers_refuted :
-  known_C08_mdns mdns_w_authority = MOutsideAnswers /\
-  forall fuel, process_mdns fuel mdns_w_authority = Fuel.
-Proof. exact mdns_refuted_authority. Qed.
-Print Assumptions C08_mdns_outside_answers_refuted.
-
-(* second class, inside the answer section: the error of SkipAnswer (RDLENGTH beyond the
-   message) is ignored and the same record is parsed again *)
-Theorem C08_mdns_skip_error_refuted :
-  known_C08_mdns mdns_w_answer_nofit = MSkipFailed /\
-  forall fuel, process_mdns fuel mdns_w_answer_nofit = Fuel.
-Proof. exact mdns_refuted_answer_nofit. Qed.
-Print Assumptions C08_mdns_skip_error_refuted.
-
-Theorem C08_mdns_partial : forall m, known_C08_mdns m = MNone ->
-  forall fuel, (2 * length (m_recs m) + 8 <= fuel)%nat ->
+   machine (Model/HandlersDnsMsg.v): ALL structured messages — any header counts, any record
+   stream, any outcome of the third-party header / body / skip operations. *)
+Theorem C08_mdns_total : forall m fuel, (2 * length (m_recs m) + 8 <= fuel)%nat ->
   process_mdns fuel m <> Panic /\ process_mdns fuel m <> Fuel.
-Proof. exact process_mdns_partial. Qed.
-Print Assumptions C08_mdns_partial.
+Proof. exact process_mdns_total. Qed.
+Print Assumptions C08_mdns_total.
 
-(* the class is exact: every message in it spins for ever (and never panics) *)
-Theorem C08_mdns_known_exact : forall m, known_C08_mdns m <> MNone ->
-  forall fuel, process_mdns fuel m = Fuel.
-Proof. exact process_mdns_known_spins. Qed.
-Print Assumptions C08_mdns_known_exact.
-
+(* typed and untyped records in every section; the former witnesses of #20 (NSEC in the
+   authority section) and of the ignored SkipAnswer error terminate *)
 Example C08_mdns_nonvacuous :
-  known_C08_mdns mdns_w_good = MNone /\ process_mdns 16 mdns_w_good = Ok tt.
+  process_mdns 16 mdns_w_good = Ok tt /\ process_mdns 16 mdns_w_authority = Ok tt /\
+  process_mdns 16 mdns_w_answer_nofit = Err EOther.
 Proof. exact mdns_nonvacuous. Qed.
 Print Assumptions C08_mdns_nonvacuous.
 
 (* ---------------------------------------------------------------- *)
 (* ProcessNBNS (nbns.go:223) + parseNodeNameArray (nbns.go:172, byte level) *)
-
-Theorem C08_nbns_name_answer_refuted : forall fuel, process_nbns fuel true nbns_w_name_answer = Fuel.
-Proof. exact nbns_refuted_name_answer. Qed.
-Print Assumptions C08_nbns_name_answer_refuted.
-
-Theorem C08_nbns_unknown_answer_refuted : forall fuel, process_nbns fuel true nbns_w_unknown_answer = Fuel.
-Proof. exact nbns_refuted_unknown_answer. Qed.
-Print Assumptions C08_nbns_unknown_answer_refuted.
-
-(* the node status decoder (as repaired by d1f1b32), byte level with capacity: total *)
 Theorem C08_nbns_array_total : forall b, wf b ->
   node_status_response b <> Panic /\ node_status_response b <> Fuel.
 Proof. exact node_status_total. Qed.
 Print Assumptions C08_nbns_array_total.
 
-Theorem C08_nbns_partial : forall m valid, known_C08_nbns valid m = NNone ->
-  forall fuel, (2 * length (m_recs m) + 4 <= fuel)%nat ->
+Theorem C08_nbns_total : forall m valid fuel, (2 * length (m_recs m) + 4 <= fuel)%nat ->
   process_nbns fuel valid m <> Panic /\ process_nbns fuel valid m <> Fuel.
-Proof. exact process_nbns_partial. Qed.
-Print Assumptions C08_nbns_partial.
+Proof. exact process_nbns_total. Qed.
+Print Assumptions C08_nbns_total.
 
 Example C08_nbns_nonvacuous :
-  known_C08_nbns true nbns_w_good = NNone /\ process_nbns 10 true nbns_w_good = Ok tt.
+  process_nbns 10 true nbns_w_good = Ok tt /\ process_nbns 10 true nbns_w_name_answer = Ok tt /\
+  process_nbns 10 true nbns_w_unknown_answer = Ok tt.
 Proof. exact nbns_nonvacuous. Qed.
 Print Assumptions C08_nbns_nonvacuous.
 
@@ -183,7 +127,7 @@ Theorem C08_process_8023_total : forall payload, wf payload ->
 Proof. exact process_8023_total. Qed.
 Print Assumptions C08_process_8023_total.
 
-(* LLDP.GetPDU (layer_ethernet.go:277): DESIGN section 11 #7 *)
+(* LLDP.GetPDU (layer_ethernet.go:277): DESIGN section 11 #7 (getTLV belongs to VIEWS) *)
 Theorem C08_lldp_refuted :
   bytes_ok lldp_w /\ known_C08_lldp_short_tlv (of_bytes lldp_w) 3 = true /\
   forall fuel, (8 < fuel)%nat -> lldp_get_pdu fuel (of_bytes lldp_w) 3 0 = Panic.
@@ -207,25 +151,19 @@ Proof. exact lldp_nonvacuous. Qed.
 Print Assumptions C08_lldp_nonvacuous.
 
 (* SSDP: CACHE-CONTROL parsing (ssdp.go:66, byte level) and processSSDP* over the structured
-   view of the net/http result: DESIGN section 11 #21 *)
-Theorem C08_ssdp_cache_control_refuted :
-  bytes_ok ssdp_cc_w /\ known_C08_ssdp_cc ssdp_cc_w = true /\ cache_control ssdp_cc_w = Panic.
-Proof. exact ssdp_cc_refuted. Qed.
-Print Assumptions C08_ssdp_cache_control_refuted.
+   view of the net/http result *)
+Theorem C08_ssdp_cache_control_total : forall v,
+  cache_control v <> Panic /\ cache_control v <> Fuel.
+Proof. exact cache_control_total. Qed.
+Print Assumptions C08_ssdp_cache_control_total.
 
-Theorem C08_ssdp_cache_control_classified : forall v,
-  if known_C08_ssdp_cc v then cache_control v = Panic
-  else cache_control v <> Panic /\ cache_control v <> Fuel.
-Proof. exact cache_control_classified. Qed.
-Print Assumptions C08_ssdp_cache_control_classified.
+Theorem C08_ssdp_total : forall v, process_ssdp v <> Panic /\ process_ssdp v <> Fuel.
+Proof. exact process_ssdp_total. Qed.
+Print Assumptions C08_ssdp_total.
 
-Theorem C08_ssdp_classified : forall v,
-  if known_C08_ssdp v then process_ssdp v = Panic
-  else process_ssdp v <> Panic /\ process_ssdp v <> Fuel.
-Proof. exact process_ssdp_classified. Qed.
-Print Assumptions C08_ssdp_classified.
-
-Example C08_ssdp_nonvacuous : known_C08_ssdp_cc ssdp_cc_good = false /\ cache_control ssdp_cc_good = Ok tt.
+(* "x=max-age" (the former #21 witness) and "max-age=1800" *)
+Example C08_ssdp_nonvacuous :
+  bytes_ok ssdp_cc_w /\ cache_control ssdp_cc_w = Ok tt /\ cache_control ssdp_cc_good = Ok tt.
 Proof. exact ssdp_cc_nonvacuous. Qed.
 Print Assumptions C08_ssdp_nonvacuous.
 
@@ -240,6 +178,8 @@ Theorem C08_dhcp4_total : forall p, wf p -> forall fuel, (len p < fuel)%nat ->
 Proof. exact dhcp4_process_total. Qed.
 Print Assumptions C08_dhcp4_total.
 
+(* ICMPv4 logger: DESIGN section 11 #3 reached through the embedded header (IP4.IsValid /
+   IP4.Payload belong to VIEWS) *)
 Theorem C08_icmp4_refuted :
   bytes_ok icmp4_w /\ known_C08_icmp4_inner (of_bytes icmp4_w) = true /\ icmp4_process (of_bytes icmp4_w) = Panic.
 Proof. exact icmp4_refuted. Qed.
@@ -256,10 +196,8 @@ Example C08_icmp4_nonvacuous :
 Proof. exact icmp4_nonvacuous. Qed.
 Print Assumptions C08_icmp4_nonvacuous.
 
-Theorem C08_icmp6_partial : forall lbl_ok p ra_processed, wf p ->
-  (nth 0 (arr p) 0 = 134 -> ra_processed = true ->
-   known_C08_ndp_zero (mkSlice (skipn 16 (arr p)) (len p - 16)) = ZNone) ->
+Theorem C08_icmp6_total : forall lbl_ok p ra_processed, wf p ->
   forall fuel, (len p < fuel)%nat ->
   icmp6_process lbl_ok fuel ra_processed p <> Panic /\ icmp6_process lbl_ok fuel ra_processed p <> Fuel.
-Proof. exact icmp6_process_partial. Qed.
-Print Assumptions C08_icmp6_partial.
+Proof. exact icmp6_process_total. Qed.
+Print Assumptions C08_icmp6_total.
